@@ -17,9 +17,9 @@ P = {
  ["the link from 'the compiled expression matches' to 'the template admits the path' for RouterJSR311 beyond the bounded pool (A-JSR)", "what net/http does before dispatch (ServeMux pattern choice)"],
  TECH),
 "C02": (True,
- "Deductive proof of totality (no nil dereference, index, slice-bounds, type-assertion or nil-map panic) for the functions on the dispatch path of both routers under their stated preconditions; of computeWebserviceScore/detectWebService (best root; regex roots claim only URLs they match) and detectDispatcher (404 exactly when no root expression matches); of detectRoute's exact outcome: a route iff some route passes all four stages, otherwise 404/405/415/406 decided by the first stage that leaves nothing (bodiless POST/PUT/PATCH rule included), with a 405 Allow list that is sound, complete and duplicate-free; of sortedMimes/insertMime totality; and of dispatch's lock balance and panic containment.",
+ "Deductive proof of totality (no nil dereference, index, slice-bounds, type-assertion or nil-map panic) for the functions on the dispatch path of both routers under their stated preconditions; of computeWebserviceScore/detectWebService (best root; regex roots claim only URLs they match) and detectDispatcher (404 exactly when no root expression matches); of detectRoute's exact outcome: a route iff some route passes all four stages, otherwise 404/405/415/406 decided by the first stage that leaves nothing (bodiless POST/PUT/PATCH rule included), with a 405 Allow list that is sound, complete and duplicate-free; that the default ServiceError handler sends the error's own status; of sortedMimes totality and insertMime's placement; and of dispatch's lock balance and panic containment.",
  COMMON_ASSUME + "A-VERB, A-JSR, regexp uninterpreted, A-CB, interface contracts of RouteSelector/PathProcessor assumed at call sites.",
- ["composition of the per-stage contracts into one statement over dispatch's written status (writeServiceError is inlined, the status written is the status of the error returned)", "what net/http does before and after dispatch"],
+ ["the end-to-end statement over the status the client sees: between the router's error and the writer sits the user-replaceable ServiceErrorHandleFunction, called through the container filters (both ends are proved: the router's exact error, the default handler's status)", "what net/http does before and after dispatch"],
  TECH),
 "C03": (True,
  "Deductive proof that all three ranking comparators (sortableCurlyRoutes, sortableRouteCandidates, sortableDispatcherCandidates) equal their lexicographic key specs, that each key order is a strict weak order (lemmas), that CurlyRouter.selectRoutes and RouterJSR311.selectRoutes return the matching candidates sorted by it, that detectWebService computes the arg-max of the root score (first among equals, inductive lemma) and detectDispatcher a candidate no other matching one outranks, that detectRoute returns the first route of the ranked list that passes all stages, and — composing these — that neither CurlyRouter.SelectRoute nor RouterJSR311.SelectRoute selects a route while another route of the chosen service that admits/matches the path and passes conditions, method, Content-Type and Accept outranks it.",
